@@ -38,6 +38,8 @@ from fim.graph.abc_property_graph import ABCPropertyGraph
 from fim.user.interface import Interface, InterfaceType
 from fim.user.link import Link, LinkType
 from fim.slivers.network_service import NetworkServiceSliver, ServiceType, NSLayer, ERO, PathInfo, MirrorDirection
+from fim.slivers.interface_info import InterfaceSliver
+from fim.slivers.network_link import NetworkLinkSliver
 from fim.slivers.gateway import Gateway
 from fim.slivers.capacities_labels import Labels
 
@@ -343,9 +345,14 @@ class NetworkService(ModelElement):
         peer_ids = self.topo.graph_model.find_peer_connection_points(node_id=interface.node_id)
         if peer_ids is not None:
             raise TopologyException(f'Interface {interface} is already connected to another service.')
+        # both derived names are checked before the ServicePort is created, so that a name the Link
+        # constructor rejects (e.g. too long) does not leave the port behind
+        peer_name = '-'.join([parent.name, interface.name])
+        InterfaceSliver().set_name(peer_name)
+        NetworkLinkSliver().set_name(peer_name + '-link')
         # create a peer interface, create a link between them
         # FIXME: copy labels from the interface into peer_labels (only needed in L3VPN, but why not?)
-        peer_if = Interface(name='-'.join([parent.name, interface.name]),
+        peer_if = Interface(name=peer_name,
                             parent_node_id=self.node_id,
                             etype=ElementType.NEW, topo=self.topo, itype=InterfaceType.ServicePort)
         # link type is determined by the type of interface = L2Path for shared, Patch for Dedicated
